@@ -175,6 +175,12 @@ class CIMNamespaceProvider(InstanceWriteProvider):
                     new_instance.classname, namespace,
                     ccn_pname, new_instance[ccn_pname]))
 
+        # Verify that the new instance specifies all key properties, before
+        # the CIM repository is changed.
+        class_store = self.cimrepository.get_class_store(namespace)
+        creation_class = class_store.get(new_instance.classname, copy=False)
+        self.create_new_instance_path(creation_class, new_instance, namespace)
+
         # Create the new namespace in the CIM repository, if needed.
         # The add_namespace() method will prevent the creation of a second
         # Interop namespace, raising CIMError(CIM_ERR_ALREADY_EXISTS).
